@@ -345,7 +345,8 @@ func Run(run *core.Run) {
 				applyEdits(scratch, w, w.saves[sj])
 				for _, pos := range printLog[sj] {
 					if _, err := twinPrint(scratch.pkg.Syntax[pos], faults.NameResolver(w.resKind, tr)); err != nil {
-						panic("harness: scratch print failed: " + err.Error())
+						run.Fail("c20/save/spurious-error", "print", "the import-managed print of %s fails without any fault: %v", w.files[w.order[pos]].path, err)
+						return
 					}
 				}
 			}
@@ -355,7 +356,8 @@ func Run(run *core.Run) {
 			for pos := range scratch.pkg.Syntax {
 				cw := &faults.Pkg{Inner: faults.NameResolver(w.resKind, tr)}
 				if _, err := twinPrint(scratch.pkg.Syntax[pos], cw); err != nil {
-					panic("harness: scratch print failed: " + err.Error())
+					run.Fail("c20/save/spurious-error", "print", "the import-managed print of %s fails without any fault: %v", w.files[w.order[pos]].path, err)
+					return
 				}
 				per = append(per, cw.Calls)
 				total += cw.Calls
@@ -507,7 +509,8 @@ func Run(run *core.Run) {
 			// keep the twin in step: files before the failure were restored
 			for p := 0; p < expectFailAt; p++ {
 				if _, err := printTwin(p); err != nil {
-					panic("harness: twin print failed: " + err.Error())
+					run.Fail("c20/save/spurious-error", "print", "the import-managed print of %s fails without any fault: %v", w.files[w.order[p]].path, err)
+					return
 				}
 			}
 			run.Count("resolver-failure-stops-save")
@@ -545,7 +548,8 @@ func Run(run *core.Run) {
 	for pos, fi := range w.order {
 		want, err := twinPrint(twin.pkg.Syntax[pos], faults.NameResolver(w.resKind, tr))
 		if err != nil {
-			panic("harness: final twin print failed: " + err.Error())
+			run.Fail("c20/save/spurious-error", "print", "the import-managed print of %s fails without any fault: %v", w.files[fi].path, err)
+			return
 		}
 		if !bytes.Equal(disk.Files[w.files[fi].path], want) {
 			run.Fail("c20/disk/final-content", "", "after the history, %q on disk differs from the import-managed print of its file:\n--- disk\n%s\n--- expected\n%s", w.files[fi].path, disk.Files[w.files[fi].path], want)
@@ -669,7 +673,8 @@ func runReal(run *core.Run, w *workload) {
 			fi := w.order[pos]
 			b, err := twinPrint(twin.pkg.Syntax[pos], faults.NameResolver(w.resKind, tr))
 			if err != nil {
-				panic("harness: twin print failed: " + err.Error())
+				run.Fail("c20/save/spurious-error", "print:real", "the import-managed print of %s fails without any fault: %v", w.files[fi].path, err)
+				return
 			}
 			expect[realPath(fi)] = string(b)
 			if !subj.edited[fi] && string(b) != w.files[fi].src {
